@@ -902,6 +902,11 @@ func (ex *Exec) applyContract(st *State, c *Contract, fn *types.Func, recv *Val,
 				continue
 			}
 		}
+		if cl.Kind == "ghostupdate" {
+			// a call log records the call whatever the arguments: the contract's domain does not restrict it
+			st.assume(g.S)
+			continue
+		}
 		st.assume(implies(dom, g.S))
 	}
 	return results
@@ -1374,6 +1379,19 @@ func (ex *Exec) specForm(st *State, name string, call *ast.CallExpr, sc *SpecCtx
 			return one(&Val{Sh: leafShape(types.Typ[types.UnsafePointer], "Int"), T: types.Typ[types.UnsafePointer], S: v.kid("ref").S})
 		}
 		return one(v)
+	case "fnName":
+		// fnName(f): the qualified name of the function or method a function value denotes, when that is known
+		// where the call is made (r.queryTokenChecker -> "route.(*Router).queryTokenChecker"); "" otherwise
+		if len(call.Args) == 1 {
+			v := ex.eval(st, call.Args[0], sc)
+			name := ""
+			if v != nil && v.Fn != nil && v.Fn.Obj != nil {
+				name = funcRef(v.Fn.Obj)
+			}
+			return one(&Val{Sh: leafShape(types.Typ[types.String], "String"), T: types.Typ[types.String], S: smtString(name)})
+		}
+		ex.specErr("fnName takes one argument")
+		return one(ex.freshVal(nil, "fnName"))
 	case "wallclock":
 		// wallclock(k): the k-th reading of the wall clock (time.Now / time.Since) the function under
 		// verification has taken, in execution order (1-based); unconstrained when there is no such reading
